@@ -395,6 +395,8 @@ func main() {
 		for len(scs) < n {
 			scs = append(scs, random(r))
 		}
+		// round 8: scenarios on and next to the limits of every numeric dimension (boundary.go)
+		scs = append(scs, boundaryScenarios(r.Fork(), tier, c)...)
 		// a third of the deployments run with proxy.response_timeout disabled (0), the setting recommended for long
 		// generations: the read timeout must cut off a stalled backend there too
 		for i := range scs {
